@@ -244,7 +244,7 @@ func (g *Generator) program() ([]byte, []byte) {
 	case g.r.Chance(0.4):
 		// return BALANCE(word0) and BALANCE(word5): read-only calls then depend on the native ledger
 		rt.push(0).op(opCALLDATALOAD, opBALANCE).push(0).op(opMSTORE)
-		rt.push(5 * 32).op(opCALLDATALOAD, opBALANCE).push(32).op(opMSTORE)
+		rt.push(5*32).op(opCALLDATALOAD, opBALANCE).push(32).op(opMSTORE)
 		rt.op(opSELFBALANCE).push(64).op(opMSTORE)
 		rt.push(96).push(0).op(opRETURN)
 	default:
